@@ -609,6 +609,32 @@ def branches():
                 return (nq.optimize.get_model_flat_parameter(m), repr(r)[:60] if not isinstance(r, (float, np.ndarray, tuple)) else r)
             add('optimize.minimize_adam', 'theta0=%s' % t0name, adam, lambda x: [] if np.all(np.isfinite(x[0])) else ['non-finite parameters'], heavy=True)
 
+    # object histories: the seeded minimiser on a model that was used before (stale .grad, moved parameters) must return what it
+    # returns on a fresh model: "a function of the arguments and the seed only"
+    PRE = ('fresh', 'backward', 'adam', 'minimize_other_seed', 'flat_grad_read')
+
+    def mini_hist(nq, s):
+        outs = []
+        for pre in (PRE if isinstance(s, (int, np.integer)) else PRE[:1]):  # a generator object as seed is a stream, not a repeatable seed
+            m = _model(nq)
+            if pre == 'backward':
+                m().backward()
+            elif pre == 'adam':
+                nq.optimize.minimize_adam(m, num_step=2, theta0='uniform', seed=0, tqdm_update_freq=0)
+            elif pre == 'minimize_other_seed':
+                nq.optimize.minimize(m, theta0='uniform', num_repeat=1, tol=1e-10, print_every_round=0, maxiter=2, seed=int(s) + 1)
+            elif pre == 'flat_grad_read':
+                (3 * m()).backward()
+                nq.optimize.get_model_flat_grad(m)
+            r = nq.optimize.minimize(m, theta0='uniform', num_repeat=1, tol=1e-10, print_every_round=0, maxiter=3, seed=s)
+            outs.append((np.asarray(r.x), float(r.fun)))
+        return outs
+
+    def v_mini_hist(x):
+        bad = [PRE[k] for k in range(1, len(x)) if not (np.array_equal(x[k][0], x[0][0]) and x[k][1] == x[0][1])]
+        return ['seeded minimize on a model used before (%s) differs from the fresh model' % ','.join(bad)] if bad else []
+    add('optimize.minimize', 'model used before (stale grad / adam / other seed)', mini_hist, v_mini_hist, heavy=True)
+
     def ces(nq, s):
         r = nq.matrix_space.get_completed_entangled_subspace((2, 3), 'quant-ph/0405077', seed=s)
         return (r[0], r[1])
